@@ -2,6 +2,7 @@ package c04
 
 import (
 	"crypto/x509"
+	"encoding/asn1"
 	"fmt"
 	"os"
 	"sync/atomic"
@@ -51,6 +52,7 @@ var forgeries = []string{
 	"sibling", "leaf-key", "unrelated", "ca-without-crlsign", "trusted-signer", "trusted-without-crlsign",
 	"alg-pss", "alg-ed25519", "alg-oid-other-family", "alg-hash-swap", "inner-outer-mismatch-resigned",
 	"stale-signature", "stale-signature",
+	"sig-length", "sig-length",
 }
 
 var regions = []string{"tbs-body", "tbs-header", "inner-alg", "entries", "outer-alg-oid", "sig-bits", "sig-bits"}
@@ -72,6 +74,9 @@ func genCase(t *rapid.T) Case {
 	c.ExtraTrusted = rapid.IntRange(0, 6).Draw(t, "extratrusted")
 	c.Interleave = rapid.IntRange(0, 2).Draw(t, "interleave") > 0
 	c.Alg = rapid.SampledFrom(gen.CompatibleAlgs(gen.K(c.CAKey))).Draw(t, "alg")
+	if c.Forgery == "sig-length" {
+		c.Pos = rapid.IntRange(0, 1).Draw(t, "siglen")
+	}
 	if c.Forgery == "flip" {
 		c.Region = rapid.SampledFrom(regions).Draw(t, "region")
 		c.Pos = rapid.IntRange(0, 1<<20).Draw(t, "pos")
@@ -202,6 +207,21 @@ func runCase(c Case, x *ev.Ctx) error {
 		// new content under the signature of the list that is (on the refresh path) currently in force
 		p, _ := baseAX.BuildParts(ca.Key)
 		p.SigBits = baseParts.SigBits
+		offered = p.Assemble()
+	case "sig-length":
+		// the signature value is one byte longer (a leading zero octet: for RSA longer than the modulus) or one byte shorter
+		p, _ := baseAX.BuildParts(ca.Key)
+		var bs asn1.BitString
+		if _, err := asn1.Unmarshal(p.SigBits, &bs); err != nil {
+			panic(err)
+		}
+		sig := bs.Bytes
+		if c.Pos%2 == 0 && ca.Key.IsRSA() {
+			sig = append([]byte{0x00}, sig...)
+		} else {
+			sig = sig[:len(sig)-1]
+		}
+		p.SigBits = gen.TLV(0x03, []byte{0}, sig)
 		offered = p.Assemble()
 	case "sibling":
 		s := mkSpec(sibling, ca.Cert.RawSubject, algFor(sibling.Key), "0a", "0b")
